@@ -431,22 +431,53 @@ func hasSym(v value, depth int) bool {
 // features the engine's minimal reflect does not have (pointers without
 // String/Error methods, maps, funcs).
 func needsReflect(args []value) bool {
+	var nested func(v value, d int) bool
+	nested = func(v value, d int) bool {
+		if d > 3 {
+			return false
+		}
+		switch v := v.(type) {
+		case *value, *omap, *closure, *ssaFunc:
+			return true
+		case iface:
+			if v.t == nil {
+				return false
+			}
+			switch v.v.(type) {
+			case *value, *omap, *closure, *ssaFunc:
+				ms := types.NewMethodSet(v.t)
+				return ms.Lookup(nil, "String") == nil && ms.Lookup(nil, "Error") == nil && ms.Lookup(nil, "Format") == nil
+			}
+			return nested(v.v, d+1)
+		case []value:
+			for _, e := range v {
+				if nested(e, d+1) {
+					return true
+				}
+			}
+		case structure:
+			for _, e := range v {
+				if nested(e, d+1) {
+					return true
+				}
+			}
+		case array:
+			for _, e := range v {
+				if nested(e, d+1) {
+					return true
+				}
+			}
+		}
+		return false
+	}
 	for _, a := range args {
 		ops, ok := a.([]value)
 		if !ok {
 			continue
 		}
 		for _, o := range ops {
-			ifc, ok := o.(iface)
-			if !ok || ifc.t == nil {
-				continue
-			}
-			switch ifc.v.(type) {
-			case *value, *omap, *closure, *ssaFunc:
-				ms := types.NewMethodSet(ifc.t)
-				if ms.Lookup(nil, "String") == nil && ms.Lookup(nil, "Error") == nil && ms.Lookup(nil, "Format") == nil {
-					return true
-				}
+			if nested(o, 0) {
+				return true
 			}
 		}
 	}
@@ -675,5 +706,56 @@ func init() {
 		fr.i.rndNames++
 		s := fmt.Sprintf("rnd%03d", fr.i.rndNames)
 		return s
+	}
+}
+
+// ---- exact symbolic strconv.IsPrint (DESIGN.md 2.3) ----
+//
+// For a symbolic rune the table search of strconv.IsPrint would fork into one
+// path per table interval. Instead the printable set is computed once per
+// process by evaluating the host's strconv.IsPrint on every code point and
+// the answer for a symbolic rune is the disjunction of the interval tests -
+// an exact function, one decision.
+
+var (
+	printIvOnce sync.Once
+	printIv     [][2]uint32
+)
+
+func printableIntervals() [][2]uint32 {
+	printIvOnce.Do(func() {
+		in := false
+		var lo uint32
+		for r := uint32(0); r <= 0x110000; r++ {
+			p := r < 0x110000 && hostIsPrint(rune(r))
+			if p && !in {
+				lo, in = r, true
+			} else if !p && in {
+				printIv = append(printIv, [2]uint32{lo, r - 1})
+				in = false
+			}
+		}
+	})
+	return printIv
+}
+
+func init() {
+	externals["strconv.IsPrint"] = func(fr *frame, args []value) value {
+		s, ok := args[0].(sv)
+		if !ok {
+			return runRealCode{}
+		}
+		tt := s.T.tt
+		var ds []*Term
+		for _, iv := range printableIntervals() {
+			lo, hi := tt.Const(32, uint64(iv[0])), tt.Const(32, uint64(iv[1]))
+			if iv[0] == iv[1] {
+				ds = append(ds, tt.Eq(s.T, lo))
+			} else {
+				// runes are int32; the printable intervals are non-negative, compare unsigned
+				ds = append(ds, tt.And(tt.App("bvuge", 0, s.T, lo), tt.App("bvule", 0, s.T, hi)))
+			}
+		}
+		return norm(tt.Or(ds...), types.Bool)
 	}
 }
